@@ -3,6 +3,7 @@ import GoImap.Drive.C20
 import GoImap.Drive.C16
 import GoImap.Drive.C19
 import GoImap.Drive.C07
+import GoImap.Drive.C02
 import GoImap.Drive.C09
 import GoImap.Drive.C05
 import GoImap.Drive.C13
@@ -13,6 +14,7 @@ import GoImap.Drive.C17
 import GoImap.Drive.C03
 import GoImap.Drive.C10
 import GoImap.Drive.C04
+import GoImap.Drive.C11
 open GoImap
 
 /-- one case per input line, tab-separated; the first field names the property -/
@@ -23,6 +25,7 @@ def dispatch (line : String) : String :=
   | "C16" :: rest => DriveC16.handle rest
   | "C19" :: rest => DriveC19.handle rest
   | "C07" :: rest => DriveC07.handle rest
+  | "C02" :: rest => DriveC02.handle rest
   | "C09" :: rest => DriveC09.handle rest
   | "C05" :: rest => DriveC05.handle rest
   | "C13" :: rest => DriveC13.handle rest
@@ -33,6 +36,7 @@ def dispatch (line : String) : String :=
   | "C03" :: rest => DriveC03.handle rest
   | "C10" :: rest => DriveC10.handle rest
   | "C04" :: rest => DriveC04.handle rest
+  | "C11" :: rest => DriveC11.handle rest
   | _ => "?\t0\tfail:unknown-property\t-"
 
 partial def loop (hin hout : IO.FS.Stream) : IO Unit := do
